@@ -344,6 +344,9 @@ func (g *gen) exactRemaining() {
 	// the 3/4-byte boundary of the remaining length: 2 MiB publishes (both tiers);
 	// list-shaped packets of that size only in the thorough tier
 	for _, rl := range bigTargets {
+		if !g.c.Thorough() && (rl == 2097150 || rl == 2097153) {
+			continue // quick tier: the two values on either side of the 3/4-byte boundary only
+		}
 		g.publishRL(rl, g.c.Rng.Intn(3))
 		if g.c.Thorough() {
 			g.subscribeRL(rl)
